@@ -756,9 +756,15 @@ pub fn c19_f1_signature(run: &Run, b: &engine::BuildRec, msg: &str) -> bool {
   let mut sh = crate::model::Shadow::default();
   for l in &run.log[..b.log.end] { sh.feed(l); }
   let reader = msg.split("from reading task 'T").nth(1).and_then(|x| x.split('\'').next()).and_then(|x| x.parse::<u8>().ok());
-  match reader {
-    Some(s) => sh.last.iter().any(|(x, e)| !e.complete && (*x == s || sh.reaches(s, *x))),
-    None => false,
+  let res = msg.split("resource 'r").nth(1).and_then(|x| x.split('\'').next()).and_then(|x| x.parse::<u8>().ok());
+  match (reader, res) {
+    (Some(s), Some(r)) => {
+      // The reader's read edge must be real (task-side log), and the cut path must go through another task whose
+      // execution was aborted.
+      let really_read = sh.last.get(&s).map(|e| e.ops.iter().any(|d| matches!(d, crate::model::Dep::Read { r: x, .. } if *x == r))).unwrap_or(false);
+      really_read && sh.last.iter().any(|(x, e)| !e.complete && *x != s && sh.reaches(s, *x))
+    }
+    _ => false,
   }
 }
 
@@ -976,6 +982,7 @@ pub fn replay(prop: &str, _label: &str, path: &Path) -> Result<CheckResult, Stri
   let spec = spec_of(prop).ok_or_else(|| format!("no spec for {}", prop))?;
   let (_, _, case): (_, _, Case) = driver::load_replay(path)?;
   if prop == "C20" && _label == "roles" { return Ok(super::roles::replay_roles(&case)); }
+  if prop == "C20" && _label == "after-aborts" { return Ok(driver::guarded(|| super::roles::check_after_aborts(&case, &mut Stats::dummy()))); }
   if prop == "C20" && _label == "guarded" { return Ok(driver::guarded(|| super::diag::check(&case, super::diag::Mode::C20, &mut Stats::dummy()))); }
   if prop == "C19" && _label == "diag" { return Ok(driver::guarded(|| super::diag::check(&case, super::diag::Mode::C19, &mut Stats::dummy()))); }
   Ok(driver::guarded(|| check(spec, &case, &mut Stats::dummy())))
